@@ -43,9 +43,9 @@ INDENTS = (0, 4, 8)
 THRESHOLDS = (None, "1", "1.5", "0.25", "10")
 # comment = None | (glue before '#', blanks after '#', text)
 COMMENTS = (None, ("", " ", "c"), (" ", " ", "c d"), ("", "", ""))
-COMMENTS_EXTRA = ((" ", " ", "x: y"),)          # only in the line product
+COMMENTS_EXTRA = ((" ", " ", "x: y"), (" ", " ", "see #12"))          # only in the line product
 COMMENT_LABEL = {None: "none", ("", " ", "c"): "hash-c", (" ", " ", "c d"): "blank-hash-c-d", ("", "", ""): "bare-hash",
-                 (" ", " ", "x: y"): "with-colon"}
+                 (" ", " ", "x: y"): "with-colon", (" ", " ", "see #12"): "with-hash"}
 
 # instruction name -> plain argument forms (None = no ': argument' at all)
 PLAIN_ARGS = {
